@@ -705,7 +705,13 @@ class Request(interfaces.Request, BaseUnicastRequest):
 
         first_event = yield None
 
-        if first_event.message is not None:
+        if self.response.cancelled():
+            # The application has given up on the response in the very step
+            # in which the first event arrives (its cancellation handler,
+            # which stops the interest, has not run yet): there is nobody to
+            # hand the event to.
+            pass
+        elif first_event.message is not None:
             self._add_response_properties(first_event.message, self._pipe.request)
             self.response.set_result(first_event.message)
         else:
